@@ -45,6 +45,8 @@ type Case struct {
 
 var caseSeq int64
 
+const emptyMark = -1 // model value of a name registered with the empty decoration
+
 const poolSize = 4
 
 // the registry is process-global and never shrinks: every case works under a fresh prefix
@@ -58,6 +60,9 @@ func names(prefix string) []string {
 }
 
 func deco(val int) decoration.Decoration {
+	if val < 0 {
+		return decoration.EmptyDecoration // registering the empty decoration under a name is a registration like any other
+	}
 	g := gen.Glyphs[val%len(gen.Glyphs)]
 	d := decoration.Decoration{Horizontal: fmt.Sprintf("H%d", val), TopLeft: g}
 	d.Populate()
@@ -151,7 +156,13 @@ func checkSeq(c Case) *ev.Violation {
 			tt := texttable.New()
 			tt.AddRowItems("x")
 			_, err := tt.SetDecorationNamed(name)
-			_, known := model[name]
+			mv, known := model[name]
+			if mv == emptyMark {
+				// the name stands for the empty decoration: the table has no decoration and refuses to render
+				// (whether the setter already says so is not fixed by the statement)
+				helds = append(helds, held{tt, name, true})
+				break
+			}
 			if known != (err == nil) {
 				return ev.V("step %d: SetDecorationNamed(%q) error=%v although registered=%v", i+1, name, err, known)
 			}
@@ -173,9 +184,15 @@ func checkSeq(c Case) *ev.Violation {
 		case "register":
 			decoration.RegisterDecorationName(name, deco(op.Val))
 			model[name] = op.Val + 1
+			if op.Val < 0 {
+				model[name] = emptyMark
+			}
 		case "named":
 			got := decoration.Named(name)
 			if v, ok := model[name]; ok {
+				if v == emptyMark {
+					v = 0 // deco(-1)
+				}
 				if got != deco(v-1) {
 					return ev.V("step %d: Named(%q) is not the decoration registered last under that name (Horizontal %q, want %q)", i+1, name, got.Horizontal, deco(v-1).Horizontal)
 				}
@@ -183,6 +200,15 @@ func checkSeq(c Case) *ev.Violation {
 				return ev.V("step %d: Named(%q) for a never-registered name is not the empty decoration: %+v", i+1, name, got)
 			}
 		case "render":
+			if model[name] == emptyMark {
+				tt := texttable.New()
+				tt.AddRowItems("x")
+				tt.SetDecorationNamed(name)
+				if out, rerr := tt.Render(); rerr == nil || out != "" {
+					return ev.V("step %d: a table set to %q, which stands for the empty decoration, rendered: err=%v output=%q", i+1, name, rerr, out)
+				}
+				break
+			}
 			g, err := renderBy(name)
 			if err != nil {
 				return ev.V("step %d: render by name %q: %v", i+1, name, err)
